@@ -48,6 +48,9 @@ func coreC10(tier string) []RunSpec {
 	for k := 0; k < 6; k++ {
 		out = append(out, RunSpec{Profile: "core:tampered-token", Params: map[string]int{"tampered": 1, "k": k}})
 	}
+	for k := 0; k < 4; k++ {
+		out = append(out, RunSpec{Profile: "core:failed-melt-then-send-dleq", Params: map[string]int{"meltback": 1, "k": k}})
+	}
 	return out
 }
 
@@ -625,6 +628,67 @@ func (ww *WW) StepEdge(m *MW) {
 	ww.rc.Nontrivial = true
 }
 
+// c10MeltBack: a melt over several inputs stays pending, the payment fails, the wallet takes the
+// proofs back (CheckMeltQuoteState or ReclaimUnspentProofs) and then sends nearly everything with DLEQ.
+func c10MeltBack(ww *WW, k int) {
+	w := ww.Wallets[0]
+	mint := mintNameOfURL(ww.node(w).Mint)
+	ww.mintInto(w, 63)
+	bal := ww.balanceAt(w, mint)
+	amount := bal/2 + 3 // several inputs
+	inv := ww.W.LN.NewExternalInvoice(amount * 1000)
+	ww.W.LN.Scripts[inv.Hash] = &LNScript{Pay: "pending"}
+	ww.op("w.melt")
+	var qid string
+	ww.W.WalletOp(w, ww.name("melt."+w), nil, func(wl *wallet.Wallet) {
+		if q, e := wl.RequestMeltQuote(inv.Bolt11, ww.mintURL(mint)); e == nil {
+			qid = q.Quote
+			wl.Melt(q.Quote)
+		}
+	})
+	if qid == "" {
+		return
+	}
+	ww.PendQ[w] = append(ww.PendQ[w], qid)
+	for _, key := range ww.W.LN.InflightKeys() {
+		ww.W.LN.ResolveInflight(key, false)
+	}
+	if k%2 == 0 {
+		ww.op("w.checkmelt")
+		ww.W.WalletOp(w, ww.name("chk."+w), nil, func(wl *wallet.Wallet) { wl.CheckMeltQuoteState(qid) })
+	} else {
+		ww.op("w.reclaim remove=false")
+		ww.W.WalletOp(w, ww.name("reclaim."+w), nil, func(wl *wallet.Wallet) { wl.ReclaimUnspentProofs() })
+	}
+	ww.rc.S.Probe("c10_failed_melt_proofs_back")
+	// hand out what came back: sends of single denominations the wallet holds need no swap
+	n := ww.node(w)
+	held := map[uint64]bool{}
+	for _, p := range n.View().Proofs {
+		held[p.Amount] = true
+	}
+	sent := 0
+	for _, d := range []uint64{32, 16, 8, 4, 2, 1} {
+		if !held[d] || sent >= 3 {
+			continue
+		}
+		sent++
+		ww.step++
+		ww.op("w.send fees=false")
+		var ps cashu.Proofs
+		var e error
+		ww.W.WalletOp(w, ww.name("send."+w), nil, func(wl *wallet.Wallet) { ps, e = wl.Send(d, ww.mintURL(mint), false) })
+		if e != nil {
+			continue
+		}
+		str, terr := MakeToken(ps, ww.mintURL(mint), false, true)
+		if terr != nil {
+			continue
+		}
+		ww.Tokens = append(ww.Tokens, &OutToken{Str: str, Proofs: ps, From: w, Mint: mint, Amount: d, Kind: "plain"})
+	}
+}
+
 func runC10(rc *RunCtx) {
 	T := rc.T
 	fee := c17Fees[T.Choose("cfg.fee", 3)]
@@ -670,6 +734,13 @@ func runC10(rc *RunCtx) {
 				ww.forceSendAll = true
 				ww.StepSend()
 				ww.forceSendAll = false
+			}
+			ww.StepReceive()
+		case rc.P("meltback", 0) == 1:
+			// proofs that were locked in a melt whose payment failed come back into the wallet from its
+			// pending storage; sent on with their DLEQ proofs they must still verify for the recipient
+			if i == 0 {
+				c10MeltBack(ww, rc.P("k", 0))
 			}
 			ww.StepReceive()
 		case rc.P("sor", 0) == 1:
